@@ -31,25 +31,30 @@ func init() {
 	})
 	register(&propDef{
 		ID: "C12",
-		Explanation: "Ownership clauses of struct values: a new instance's Fields come from intMap.Copy() of the type's table (never the table itself) and Copy allocates a fresh pairs slice and copies into it; the instance's Methods is the same pointer as the type's; SetIndex goes through intMap.Assign, which converts with assign(existing.t), never inserts and never changes the count; GetIndex consults fields before methods; struct Values hold *structT (reference semantics); field order is kept in Order, appended only for a new name. Not decided: intMap Set/Get/Delete/resize for arbitrary key sets (robin-hood probing/displacement) — algorithmic, needs model-based testing or proof.",
+		Explanation: "Ownership clauses of struct values: a new instance's Fields come from intMap.Copy() of the type's table (never the table itself) and Copy allocates a fresh pairs slice and copies into it; the instance's Methods is the same pointer as the type's; SetIndex goes through intMap.Assign, which converts with assign(existing.t), never inserts and never changes the count; GetIndex consults fields before methods; struct Values hold *structT (reference semantics); field order is kept in Order, appended only for a new name. REP-INTMAP decides the structural invariants of the field table that its lookups rely on: every slot access of every operation uses an index reduced modulo the table size on all paths (must-dataflow, interprocedural over new helpers), probe indices step by one, no partial scans, mask = size-1, power-of-two sizes, max < size-1 (an empty slot always exists), growth on total > max, distance 1 on insertion, lookups stop at distance 0, Delete's back-shift protocol, resize re-inserting at the key's own hash. REP-DEFTYPE / REP-DEFCONV: struct type / conversion resolution looks through defined-type aliases for plain and qualified names. Not decided: the induction from these invariants to lookup correctness over all histories (textbook argument, stated in DESIGN.md).",
 		Quick: []ruleDef{
 			{"REP-STRUCT", 8, ruleRepStruct},
+			{"REP-INTMAP", 20, ruleRepIntMap},
+			{"REP-DEFTYPE", 2, ruleRepDefType},
+			{"REP-DEFCONV", 1, ruleRepDefConv},
 		},
 	})
 	register(&propDef{
 		ID: "C13",
-		Explanation: "Strings: delegation rules with Go's own constructs as oracle. REP-STRING: stringT.Len is len(s); Get indexes the string and wraps the byte with the uint8 constructor; Slice is s[i:j]; the key yielded by Range derives from the index variable of a Go range over s (byte offsets) and the value from its rune variable; opAdd/opLt/opLte/Equals apply + < <= == to stringT operands; convert uses string(rune(.)), []byte(.) and string([]byte); no method writes through s. PAN-ERRDROP(literals): token.go's decoders do not discard the error of strconv.Unquote*/Parse*, and UnquoteChar is given the single quote it is inside. Not decided: escapes beyond what strconv decides; invalid UTF-8 (delegated to Go's range/conversions).",
+		Explanation: "Strings: delegation rules with Go's own constructs as oracle. REP-STRING: stringT.Len is len(s); Get indexes the string and wraps the byte with the uint8 constructor; Slice is s[i:j]; the key yielded by Range derives from the index variable of a Go range over s (byte offsets) and the value from its rune variable; opAdd/opLt/opLte/Equals apply + < <= == to stringT operands; convert uses string(rune(.)), []byte(.) and string([]byte); no method writes through s. PAN-ERRDROP(literals): token.go's decoders do not discard the error of strconv.Unquote*/Parse*, and UnquoteChar is given the single quote it is inside. LIT-CONSTKEY: a literal kept in the constant table is keyed by the token's own spelling, the same key for Set and for the CONST operand. Not decided: escapes beyond what strconv decides; invalid UTF-8 (delegated to Go's range/conversions).",
 		Quick: []ruleDef{
 			{"REP-STRING", 10, ruleRepString},
 			{"PAN-ERRDROP-LIT", 4, ruleErrDropLit},
 			{"LIT-DELEGATE", 4, ruleLitDelegate},
+			{"LIT-CONSTKEY", 2, ruleLitConstKey},
 		},
 	})
 	register(&propDef{
 		ID: "C14",
-		Explanation: "REP-PRINT, termination: in every SafeStr method the recursive rendering of an element is preceded, in the same iteration, by the isSafeStr guard that returns the elision; isSafeStr is false for exactly the tags whose String iterates elements (slice, map, struct); every String method of a container renders elements through safeStr (so nesting below a container is cut at depth 2 and rendering terminates on cyclic graphs). Dispatch: numeric tags render fmt.Sprint of the Go number, strings raw, booleans through Bool(); vaSprint joins with one space; struct rendering ranges the Order slice (declaration order), never the Lookup map, and addField appends to Order only for a new name. Not decided: textual equality with %v (value level); depth>=3 prints [...] where Go prints the full value (a known divergence this family cannot detect by rule).",
+		Explanation: "REP-PRINT, termination: in every SafeStr method the recursive rendering of an element is preceded, in the same iteration, by the isSafeStr guard that returns the elision; isSafeStr is false for exactly the tags whose String iterates elements (slice, map, struct); every String method of a container renders elements through safeStr (so nesting below a container is cut at depth 2 and rendering terminates on cyclic graphs). Dispatch: numeric tags render fmt.Sprint of the Go number, strings raw, booleans through Bool(); vaSprint joins with one space; struct rendering ranges the Order slice (declaration order), never the Lookup map, and addField appends to Order only for a new name. REP-ORDER: Order (shared by all instances as a slice header) only grows by append to itself, is never truncated/re-sliced/stored into, and no loop over a map appends to it. Not decided: textual equality with %v (value level); depth>=3 prints [...] where Go prints the full value (a known divergence this family cannot detect by rule).",
 		Quick: []ruleDef{
 			{"REP-PRINT", 12, ruleRepPrint},
+			{"REP-ORDER", 2, ruleRepOrder},
 		},
 	})
 }
